@@ -83,7 +83,9 @@ impl Axecutor {
         debug_assert_eq!(i.code(), Retnq);
 
         let rsp = self.reg_read_64(RSP)?.wrapping_add(8);
-        if rsp == self.stack_top {
+        // stack_top is 0 as long as no stack has been set up (init_stack*): there is no top-level
+        // return then, and RSP + 8 wrapping to 0 must not be taken for one
+        if self.stack_top != 0 && rsp == self.stack_top {
             return Err(AxError::from("Cannot pop from empty stack").end_execution());
         }
         let rip = self.mem_read_64(rsp)?;
